@@ -1,6 +1,6 @@
 """C10 — discovered dependencies count exactly like declared implicit inputs (DESIGN 5.10)."""
 from facts import AnalysisBroken
-from model import (dstr, strip, fact_holds, mentions_field, mentions_call, mentions_var,
+from model import (ret_value_class, dstr, strip, fact_holds, mentions_field, mentions_call, mentions_var,
                    const_value, walk)
 from rules import (guarded, calls_to, field_writes, who_may_write, who_may_call, full_range,
                    loops_over, every_iteration_passes, basename, origins, is_var, is_enum,
@@ -208,7 +208,36 @@ def run(ctx):
                           'after a failed deps extraction nothing is recorded in either log',
                           witness=None if r is None else {'blocks': r[0]})
     ctx.check('C10.O1', n >= 1 and len(rds) == 1, fc.name, 'extraction:sites', fc.loc, 'extraction result is tested')
-    ctx.floor('C10.O1', 4)
+    # ... whatever else happened to the outputs (restat pruning included): with a deps type, outside a
+    # dry run, no success return of FinishCommand avoids RecordDeps
+    # (reaching the head of the per-output loop counts: every statement has an output)
+    rd_heads = {l['header'] for e in rds for l in loops_over(fc, 'Edge::outputs_')
+                if e['_b'] in fc.reachable_from(l['body']) | {l['body']} and l['header'] in fc.reachable_from(e['_b'])}
+    def skip_ok(b, i, s2):
+        for k, pol, atom in fc.edge_facts(b, i):
+            kk = k.replace(' ', '')
+            if pol is True and ('deps_type.empty()' in kk or 'BuildConfig::dry_run' in kk or 'std::basic_string<char>::empty' in kk and 'deps_type' in kk):
+                return False
+        return True
+    r = fc.find_path(None, lambda x: x['k'] == 'ret' and ret_value_class(prog, fc, x) == 'success', from_succ=fc.entry,
+                     is_blocker=lambda x: x in rds or x.get('_b') in rd_heads, edge_ok=skip_ok)
+    ctx.check('C10.O1', r is None, fc.name, 'RecordDeps:skipped-on-success', fc.loc,
+              'a successful command with deps (not a dry run) always has its deps recorded before FinishCommand succeeds',
+              witness=None if r is None else {'blocks': r[0]})
+    # deps = msvc: a line is only classified as the echoed input file name (and dropped) once it is
+    # known not to be a /showIncludes note; every note reaches includes_ or IsSystemInclude
+    clp0 = prog.fn('CLParser::Parse')
+    fsi = [e for e in clp0.calls('CLParser::FilterShowIncludes')]
+    fif = [e for e in clp0.calls('CLParser::FilterInputFilename')]
+    ctx.check('C10.O1', len(fsi) == 1 and len(fif) == 1, clp0.name, 'CLParser:filters', clp0.loc, 'both line filters are applied')
+    for e in fif:
+        ok = bool(fsi) and clp0.dominates_ev(fsi[0], e) and fact_holds(
+            clp0.facts_at(e), lambda a: 'empty' in dstr(a) and any(mentions_call(o, 'CLParser::FilterShowIncludes')
+                                                                     for v in [x for x in walk(a) if x.get('k') == 'var']
+                                                                     for o in origins(clp0, v)), True)
+        ctx.check('C10.O1', ok, clp0.name, 'CLParser:include-note-dropped-as-filename', clp0.where(e),
+                  'FilterInputFilename is consulted only for lines FilterShowIncludes did not recognise')
+    ctx.floor('C10.O1', 7)
 
     # ---- CN ------------------------------------------------------------------------------------------
     R('C10.CN', 'CN', 'depfile, deps=gcc and deps=msvc paths are canonicalised before they become nodes')
